@@ -146,3 +146,4 @@ def oracle(line, out, expect):
     if a is not None and a > ALLOC_LIMIT:
         return "largest single allocation %d bytes exceeds %d for frames of at most 65535 bytes" % (a, ALLOC_LIMIT)
     return None
+from ties import of as _tie_of; TIE_LAYOUTS, TIE_PINS, TIE_ENUMS = _tie_of("C06")   # static-tie lemmas (coq/Gen/Tie) this property depends on
